@@ -6,6 +6,7 @@ import (
 	"context"
 	"io"
 	"net/http"
+	"net/http/httputil"
 
 	gosocks5 "github.com/armon/go-socks5"
 	"github.com/gorilla/mux"
@@ -208,4 +209,23 @@ func verif_NewStaticFilePlugin(pc PluginContext, options v1.ClientPluginOptions)
 	verif.Ensures(verif.CallCount(evMw) == 1 && verif.CalledWith(evMw, 0, user) && verif.CalledWith(evMw, 1, pwd), "middleware_built_from_the_configured_credentials")
 	verif.Ensures(verif.CallCountWith(evUse, 0, r) == 1 && verif.CalledBefore(evUse, evRoute), "router_carries_the_middleware_before_any_route")
 	verif.Ensures(verif.CallCount("mux.Router).") == 2 && verif.CallCountWith(evRoute, 0, r) == 1, "the_file_handler_is_the_only_route_and_hangs_off_that_router")
+}
+
+// http2https plugin, the Rewrite hook (C02 "requests preserved apart from
+// declared rewrites"): each of the three forwarded-* chains of the incoming
+// request is carried over under its own name, the whole value list, before
+// the proxy appends its own entries.
+//
+//verif:contract ~/pkg/plugin/client.NewHTTP2HTTPSPlugin$1
+//verif:props C02
+//verif:kinds post,pre
+func verif_http2https_Rewrite(r *httputil.ProxyRequest) {
+	verif.Requires(r.In != nil && r.Out != nil && r.In.Header != nil && r.Out.Header != nil && r.Out.URL != nil, "proxy_request_of_the_reverse_proxy")
+	xff, xfh, xfp := r.In.Header["X-Forwarded-For"], r.In.Header["X-Forwarded-Host"], r.In.Header["X-Forwarded-Proto"]
+	verif.ResetEvents()
+	verif.CallTarget(r)
+	const evHdr = "mapset:H.net.http.Request.Header"
+	verif.Ensures(verif.NthArg[string](evHdr, 0, 1) == "X-Forwarded-For" && verif.Same(verif.NthArg[[]string](evHdr, 0, 2), xff), "forwarded_for_chain_carried_over")
+	verif.Ensures(verif.NthArg[string](evHdr, 1, 1) == "X-Forwarded-Host" && verif.Same(verif.NthArg[[]string](evHdr, 1, 2), xfh), "forwarded_host_chain_carried_over")
+	verif.Ensures(verif.NthArg[string](evHdr, 2, 1) == "X-Forwarded-Proto" && verif.Same(verif.NthArg[[]string](evHdr, 2, 2), xfp), "forwarded_proto_chain_carried_over")
 }
